@@ -20,6 +20,7 @@ def check(ctx):
   r1(ctx)
   r2(ctx)
   r3(ctx)
+  add_remove_atomic(ctx)
 
 
 def r1(ctx):
@@ -34,6 +35,15 @@ def r1(ctx):
                  (e.kind == 'call' and (U(e.node.func).endswith(('__AddServer', '__RemoveServer')) or '_servers' in U(e.node)))]
       rets = [i for i, e in enumerate(ev) if e.kind == 'ret' and (not gate or i < gate[0])]
       ok = len(gate) >= 1 and (not touches or gate[0] < touches[0]) and not rets
+      if gate:
+        # the wait is unbounded: a wait that gives up lets the notification be applied to the member table of before the snapshot is installed
+        gc = ev[gate[0]].node
+        bounded = bool(gc.args) or bool(gc.keywords)
+        if bounded:
+          passed = any(e.kind == 'cond' and ev[gate[0]].node in list(ast.walk(e.node)) and e.info for e in ev[gate[0]:(touches[0] if touches else len(ev))])
+          ctx.ob('C05.R1', f, 'the gate wait is unbounded (or its timeout is not taken for "loaded")', passed,
+                 '%s waits at most %s and then goes on: a leave that arrives while the snapshot is still being loaded is applied to the old table and the stale snapshot re-installs the departed member' % (nm.strip('_'), U(gc)),
+                 why)
       ctx.ob('C05.R1', f, '%s waits for the initial load before anything else' % nm.strip('_'), ok,
              'gate at %s, first member-table access at %s, early return %s' % (gate[:1], touches[:1], bool(rets)), why)
   o = prog.func(B, 'LoadBalancerSink._OpenImpl')
@@ -230,3 +240,24 @@ def move_rules(ctx, rule):
       ok = len(add) == 1 and len(sup) == 1 and U(add[0][1].args[0]) == U(sup[0][1].args[0])
       ctx.ob(rule, c, 'contraction: the same endpoint is added to idle and removed from the heap, once', ok,
              'contraction path: idle adds %s, heap removals %s' % ([U(a[1]) for a in add], [U(s[1]) for s in sup]), why)
+
+
+def add_remove_atomic(ctx):
+  """Heap membership changes are atomic with respect to each other: _AddSink (including the creation of the channel) and
+  _RemoveSink run entirely under the heap lock."""
+  prog = ctx.prog
+  H_ = 'scales/loadbalancer/heap.py'
+  why = ('the aperture takes an endpoint out of the idle set and then adds it to the heap; while the channel is being created (which may yield) a leave of '
+         'that endpoint must wait for the heap lock -- otherwise it finds the endpoint in neither place, removes nothing, and the departed member is added for good')
+  for nm in ('_AddSink', '_RemoveSink'):
+    f = prog.func(H_, 'HeapBalancerSink.' + nm)
+    decs = [U(d) for d in f.node.decorator_list]
+    body = [st for st in f.node.body if not (isinstance(st, ast.Expr) and isinstance(st.value, ast.Constant))]
+    whole = 'synchronized' in decs or (len(body) == 1 and isinstance(body[0], ast.With) and any('_heap_lock' in U(i.context_expr) for i in body[0].items))
+    if not whole and nm == '_AddSink':
+      # at least: the channel factory is called inside the lock region
+      fac = [c for c in ast.walk(f.node) if isinstance(c, ast.Call) and isinstance(c.func, ast.Name) and c.func.id == f.params[2]]
+      withs = [w for w in ast.walk(f.node) if isinstance(w, ast.With) and any('_heap_lock' in U(i.context_expr) for i in w.items)]
+      whole = bool(fac) and all(any(c in list(ast.walk(w)) for w in withs) for c in fac)
+    ctx.ob('C05.R3', f, '%s runs under the heap lock from its first statement (channel creation included)' % nm, whole,
+           '%s is not @synchronized / its channel factory runs outside `with self._heap_lock`' % nm, why)
